@@ -5,6 +5,12 @@ V = os.path.dirname(os.path.dirname(os.path.abspath(__file__)))
 ALL = ["C%02d" % i for i in range(1, 21)]
 
 CLAIMED = {
+ "C14": dict(
+   level="exploration",
+   text="Parent/child document pairs from templates with generated parameters (1-3 invokes with inline content in a compound or parallel invoking state, explicit or generated invoke ids, autoforward, namelist/param for declared and undeclared child data, finalize blocks whose effect a transition guard reads, a state entered and left within one macrostep, an independent invoking state in a sibling region, children of five kinds incl. one with an invoked grandchild; rfsm-expression and ECMAScript) driven by generated host scripts (enter / leave / re-enter, host events, stop requests, pauses 0-8 ms, optional lock jitter). All sessions write one merged time-stamped mark log; eight history invariants decide: started exactly once per surviving entry and never for the flash state, only declared data receive values, cancelled on exit (and only then), invokeid on child events, finalize before selection and only for its own invoke, every host event forwarded to autoforward children, done.invoke exactly once after all other events of that child, nothing processed from a child after its state was exited.",
+   design="6/C14",
+   note="Relative timings of child events, completion and cancellation are sampled (OS scheduler, pauses, lock jitter), not enumerated. Obligations that need time are awaited up to 2 s, prohibitions are final at once. src (file) children are not generated: Fsm::invoke treats both forms alike once the document is loaded.",
+   technique="property-based testing: generated parent/child scenario templates + history invariants over the merged mark log"),
  "C15": dict(
    level="exploration",
    text="Topologies of 2-5 router sessions (45 % with an invoked child router, explicit or generated invoke id; 20 % ECMAScript) whose generated command transitions execute one <send> each: all target forms (none, #_internal, #_scxml_<id> literal and by targetexpr incl. own id and children, own _ioprocessors location, #_parent, #_<invokeid> explicit and generated, each literal and as targetexpr), type forms, payload shapes (none, params, namelist, content text/expr) and id forms (none, literal, idlocation); 1-4 host threads issue the commands concurrently. Every session marks each processed event with all fields and replies to _event.origin. Oracle: processed exactly once, by the addressed session, from the addressed queue; name, sendid, data equal; one reply reaches the sender. Second phase: 4-16 threads start 2-8 sessions each simultaneously (spinning barrier per round), each with 3 idlocation sends and 2 id-less invokes: session ids globally distinct, generated ids distinct per session, invoke ids of the form stateid.platformid.",
